@@ -123,7 +123,7 @@ func runC19(c *core.Ctx) {
 			if f == nil {
 				continue
 			}
-			path := staticReach(f, func(g *ssa.Function) bool { return forbidden[ssax.FuncName(g)] }, func(g *ssa.Function) bool {
+			path := r.reach(f, func(g *ssa.Function) bool { return forbidden[ssax.FuncName(g)] }, func(g *ssa.Function) bool {
 				return g.Pkg != nil && ssax.Short(g.Pkg.Pkg.Path()) == stPkg
 			})
 			if path != nil {
@@ -312,6 +312,64 @@ func flowsFromValue(v, root ssa.Value, depth int) bool {
 		}
 	}
 	return false
+}
+
+// reach is staticReach in the quick tier; in the thorough tier it walks the whole-program VTA call graph, so
+// interface invocations, method values and closures called through variables are followed too.
+func (r *R) reach(f *ssa.Function, bad func(*ssa.Function) bool, within func(*ssa.Function) bool) []string {
+	if r.Tier != "thorough" {
+		return staticReach(f, bad, within)
+	}
+	cg := r.P.CallGraph()
+	r.Stat("vta_nodes", len(cg.Nodes))
+	type item struct {
+		fn   *ssa.Function
+		path []string
+	}
+	seen := map[*ssa.Function]bool{f: true}
+	queue := []item{{f, []string{ssax.FuncName(f)}}}
+	edges := 0
+	for len(queue) > 0 {
+		it := queue[0]
+		queue = queue[1:]
+		node := cg.Nodes[it.fn]
+		var next []*ssa.Function
+		if node != nil {
+			for _, e := range node.Out {
+				if e.Callee != nil && e.Callee.Func != nil {
+					next = append(next, e.Callee.Func)
+					edges++
+				}
+			}
+		}
+		// closures created here are reachable even if only stored
+		for _, b := range it.fn.Blocks {
+			for _, in := range b.Instrs {
+				if mc, ok := in.(*ssa.MakeClosure); ok {
+					next = append(next, mc.Fn.(*ssa.Function))
+				}
+			}
+		}
+		for _, g := range next {
+			if o := g.Origin(); o != nil {
+				g = o
+			}
+			if seen[g] {
+				continue
+			}
+			seen[g] = true
+			p := append(append([]string(nil), it.path...), ssax.FuncName(g))
+			if bad(g) {
+				r.Stat("vta_edges_followed", edges)
+				return p
+			}
+			if within(g) || g.Parent() != nil {
+				queue = append(queue, item{g, p})
+			}
+		}
+	}
+	r.Stat("vta_edges_followed", edges)
+	return nil
 }
 
 // staticReach searches the static call graph (calls, defers, go, closures created) from f for a function
